@@ -175,7 +175,24 @@ def run(ctx):
     na = ctx.fn(LP + ":numpy_array_to_live_points")
     loops = [n for n in walk_no_nested(na.node) if isinstance(n, ast.For)]
     okn = len(loops) == 1 and match_stmt("for $$i, $$n in enumerate(names):\n    $$arr[$$n] = array[..., $$i]", loops[0]) is not None
-    ctx.ob("R-SIB", "C18.4", na, "column i of a plain array goes to field names[i] (enumerate(names))", okn, "")
+    naa = FA(na)
+    loop_ids = [n_.id for n_ in naa.nodes() if n_.kind == "for" and n_.ast in loops]
+    # ... on every path - or, where the rows are known to be C-contiguous, by re-reading each row of the buffer as one
+    # record (an F-ordered or transposed array has the same bytes in another order: numpy accepts it as a buffer, and every
+    # field but the first gets values of other points)
+    fast_ids, fast_ok = [], True
+    for nid_ in naa.find(lambda s_: isinstance(s_, ast.Assign) and isinstance(s_.value, ast.Call) and canon(s_.value.func) == "ndarray" and any(canon(a_) == "array" for a_ in list(s_.value.args) + [k_.value for k_ in s_.value.keywords])):
+        fast_ids.append(nid_)
+        facts_ = guard_facts(naa, nid_)
+        fast_ok = fast_ok and any(t_ is True and canon(e_) in ("array.flags.c_contiguous", "array.flags['C_CONTIGUOUS']", "array.flags['C']") for e_, t_ in facts_)
+    import networkx as _nx18
+
+    g18 = naa.cfg.g.copy()
+    g18.remove_nodes_from(loop_ids + fast_ids)
+    rets18 = [r_ for r_ in naa.find(lambda s_: isinstance(s_, ast.Return)) if not (isinstance(naa.stmt(r_).value, ast.Call) and canon(naa.stmt(r_).value.func) == "empty_structured_array")]
+    bypass = any(r_ in g18 and naa.cfg.entry in g18 and _nx18.has_path(g18, naa.cfg.entry, r_) for r_ in rets18)
+    okn = okn and bool(loop_ids) and bool(rets18) and not bypass and fast_ok
+    ctx.ob("R-SIB", "C18.4", na, "column i of a plain array goes to field names[i] (enumerate(names))", okn, "" if fast_ok else "the rows are re-read as records without a test that they are C-contiguous")
     DEF_ = "config.livepoints.non_sampling_defaults"
 
     def _array_calls(e_):
